@@ -453,9 +453,8 @@ def make_nested_groups(rng, tier, start):
     return groups
 
 
-NQUIRKS = {"a": "C09-additions-in-root", "c": "C09-chain-marker-kept", "e": "C09-empty-union-operand",
-           "b": "C09-bare-size-marker-lost"}
-NMASKS = sorted(("".join(k for i, k in enumerate("abce") if m >> i & 1) for m in range(1, 16)), key=lambda x: (len(x), x))
+NQUIRKS = {"a": "C09-additions-in-root", "c": "C09-chain-marker-kept", "e": "C09-empty-union-operand"}
+NMASKS = sorted(("".join(k for i, k in enumerate("ace") if m >> i & 1) for m in range(1, 8)), key=lambda x: (len(x), x))
 
 
 def nested_oracle(run, g, model_spec):
@@ -492,8 +491,6 @@ def nested_oracle(run, g, model_spec):
         run.count("noracle:agree")
         return None
     for m in NMASKS:
-        if "b" in m and not g["bare"]:
-            continue
         if "c" in m and len([l for l in g["chain"] if l]) < 2:
             continue
         if not differs(NS.oracle(g["chain"], g["bare"], m)):
@@ -608,8 +605,6 @@ def main(tier):
             for sp in specs_of(g["chain"]):
                 na = NS.n_atoms(sp[1])
                 run.count("nest-shape:atoms=%s,depth=%s" % (na if na < 4 else "4-6" if na < 7 else "7+", min(NS.n_depth(sp[1]), 4)))
-            if c == "CRASH" and mm == "CRASH" and g["bare"] and len([l for l in g["chain"] if l]) > 1:
-                run.known_finding("C09-bare-size-child-assert", g["defs"])
         if mm != c:
             run.count("model_vs_code_diff")
             run.violation("correspondence:Crange(%s)" % g["kind"],
